@@ -274,6 +274,7 @@ def run(ctx):
     _run_rules(ctx)
     from .. import boundaries
     boundaries.check(ctx, 'C02.RB', 'C02')
+    boundaries.check_guards(ctx, 'C02.RG', 'C02')
     boundaries.check_calls(ctx, 'C02.RC', 'C02')
     from .. import tstate
     r7 = ctx.rule('C02.R7', 'TSTATE', 'the predicates that decide which streams receive window deltas agree with the reference on all 15 states (is_send_closed, is_send_streaming)')
